@@ -16,13 +16,20 @@ VIOL = []
 
 
 def guarded(name, anns, body="return NAME"):
-    """Build a function whose body first checks its arguments against its own annotations."""
-    g = {f"T{k}": a for k, a in enumerate(anns)}
+    """Build a function whose body first checks its arguments against its own annotations (positional parameters a0.., then
+    keyword-only ones under their names)."""
+    pos, kw = GD._split(anns)
+    g = {f"T{k}": a for k, a in enumerate(pos)}
+    g.update({f"K_{n_}": a for n_, a in kw})
     g["VIOL"] = VIOL
-    g["N"] = [normalize_type(a, None) for a in anns]
-    params = ", ".join(f"a{k}: T{k}" for k in range(len(anns)))
-    checks = "\n".join(f"    if not isinstance(a{k}, N[{k}]): VIOL.append(({name!r}, {k}, repr(a{k})))" for k in range(len(anns)))
-    exec(f"def {name}({params}):\n{checks}\n    {body.replace('NAME', repr(name))}\n", g)
+    g["N"] = [normalize_type(a, None) for a in pos]
+    g["NK"] = {n_: normalize_type(a, None) for n_, a in kw}
+    params = [f"a{k}: T{k}" for k in range(len(pos))]
+    if kw:
+        params += ["*"] + [f"{n_}: K_{n_}" for n_, _ in kw]
+    checks = [f"    if not isinstance(a{k}, N[{k}]): VIOL.append(({name!r}, {k}, repr(a{k})))" for k in range(len(pos))]
+    checks += [f"    if not isinstance({n_}, NK[{n_!r}]): VIOL.append(({name!r}, {n_!r}, repr({n_})))" for n_, _ in kw]
+    exec(f"def {name}({', '.join(params)}):\n" + "\n".join(checks) + f"\n    {body.replace('NAME', repr(name))}\n", g)
     return g[name]
 
 
@@ -34,14 +41,17 @@ def main():
         ov = Ovld(name=f"fam{fi}")
         for hi, anns in enumerate(anns_list):
             ov.register(guarded(f"h{hi}", anns))
-        ov.register(guarded("base", [object] * len(anns_list[0])))
+        pos0, kw0 = GD._split(anns_list[0])
+        npos, kwn = len(pos0), [n_ for n_, _ in kw0]
+        ov.register(guarded("base", [object] * npos + [GD.KW(n_, object) for n_ in kwn]))
         corpus = {bytes: [b"ab"], int: [0, 1, 2, 5, 7, -1, True], str: ["a", "b", "ab", "xb", ""], bool: [True, False], tuple: [(1, "a"), (1, 1), (1,)]}
         for probe in probes:
+            probe = [e[2] if (isinstance(e, tuple) and e and e[0] == "kw") else e for e in probe]
             for vals in itertools.product(*[corpus[c] for c in probe]):
                 n += 1
                 del VIOL[:]
                 try:
-                    ov(*vals)
+                    ov(*vals[:npos], **dict(zip(kwn, vals[npos:])))
                 except Exception:
                     pass
                 if VIOL:
